@@ -1,6 +1,41 @@
-(* C06 - statements only; proofs in the *Facts.v files. (grows) *)
-From Sbdf Require Import Va VaFacts PrimFacts ObjFacts.
-Theorem C06_value_array_wire : forall swp v, wf_va v -> byte_ok (vty v) ->
-  wspec (va_write swp v) (Ok tt) (enc_va swp v) /\ rspec (va_read swp None) (enc_va swp v) v.
-Proof. intros swp v W B. split; [exact (wspec_va swp v W)|exact (rspec_va swp v W B)]. Qed.
-Print Assumptions C06_value_array_wire.
+(* C06 — a truncated file never reads as a complete table.
+   rspec m bs a: the reader m returns a on bs whatever follows, and on EVERY strict prefix of bs
+   it fails with a hard error (neither OK nor end-of-table).  Statements only. *)
+From Sbdf Require Import File PrimFacts SevenBit ObjFacts VaFacts SliceFacts FileFacts.
+
+Theorem C06_meaning : forall A (m : R A) bs a, rspec m bs a ->
+  forall n, 0 <= n < zlen bs -> exists e, m (ztake n bs) = Err e /\ e <> SBDF_OK /\ e <> SBDF_TABLEEND.
+Proof. intros A m bs a [_ T] n Hn. destruct (T n Hn) as (e & E & H1 & H2). eauto. Qed.
+Print Assumptions C06_meaning.
+
+Theorem C06_header : rspec fh_read enc_header (1, 0).
+Proof. exact rspec_fh. Qed.
+Print Assumptions C06_header.
+
+Theorem C06_value_array : forall swp v, wf_va v -> byte_ok (vty v) -> rspec (va_read swp None) (enc_va swp v) v.
+Proof. exact rspec_va. Qed.
+Print Assumptions C06_value_array.
+
+Theorem C06_column_slice : forall swp c, wf_cs c -> rspec (cs_read swp None) (enc_cs swp c) (owned_cs c).
+Proof. exact rspec_cs. Qed.
+Print Assumptions C06_column_slice.
+
+Theorem C06_table_slice : forall swp cols, wf_ts cols -> rspec (ts_read swp None (zlen cols) None) (enc_ts swp cols) (owned_ts cols).
+Proof. exact rspec_ts. Qed.
+Print Assumptions C06_table_slice.
+
+(* the reading session over the slice stream (slices, end marker): the complete stream delivers
+   all slices and then end-of-table; every strict prefix ends with a hard error, and what was
+   delivered before it is a prefix of the full file's slices, unchanged *)
+Theorem C06_session_complete : forall swp sls ncols fuel tail,
+  slices_ok ncols sls -> (length sls <= length fuel)%nat ->
+  read_slices swp None fuel ncols None (enc_slices swp sls ++ tail) = (map owned_ts sls, SBDF_TABLEEND, enc_end ++ tail).
+Proof. exact read_slices_exact. Qed.
+Print Assumptions C06_session_complete.
+
+Theorem C06_session_truncated : forall swp sls ncols fuel n,
+  slices_ok ncols sls -> 0 <= n < zlen (enc_slices swp sls) ->
+  let '(l, st, _) := read_slices swp None fuel ncols None (ztake n (enc_slices swp sls)) in
+  hard st /\ exists k, l = map owned_ts (firstn k sls).
+Proof. exact read_slices_truncated. Qed.
+Print Assumptions C06_session_truncated.
